@@ -272,11 +272,11 @@ Qed.
 
 (* ---- Bloch-Redfield: the matrix-operation route ---- *)
 Lemma act_br_term_data (A S : Oexpr) X :
-  act (gen_br_term_data h A S) X = (br_rhs (oden A) (oden S) X^T)^T.
+  act (gen_br_term_data h A S) X = br_rhs (oden A) (oden S) X.
 Proof.
 rewrite /gen_br_term_data /br_rhs /= scale1r trmx1 mulmx1 mul1mx.
-rewrite !linearB /= linearD /= !trmx_mul !trmxK !mulmxA.
-by rewrite -!addrA; congr (_ + (_ + _)); rewrite addrC.
+rewrite !trmx_mul !had_tr !trmxK.
+by rewrite [X in X - _ - _ = _]addrC.
 Qed.
 
 Lemma tr_br_rhs (A S X : 'M[R]_n) : \tr (br_rhs A S X) = 0.
